@@ -222,9 +222,16 @@ def direct(ctx, corr_r, corr_d):
     import runner
     rnd = random.Random(ctx.rnd.random())
     S = B.gen_market(rnd, ndays=4, warm=1, n_stocks=3, with_future=False, opts={"kinds": ["CS", "KSH", "ETF"], "p_delist": 0, "p_split": 0, "p_div": 0})
-    S["stocks"][0].update(board="MainBoard", lot=100.0, type="CS")
+    def rename(st, new_id, **kw):
+        for tab in ("fac", "div", "split", "sus"):
+            if st["id"] in S[tab]:
+                S[tab][new_id] = S[tab].pop(st["id"])
+        st.update(id=new_id, **kw)
+    rename(S["stocks"][0], "000011.XSHE", board="MainBoard", lot=100.0, type="CS")
     if len(S["stocks"]) > 1:
-        S["stocks"][1].update(board="KSH", lot=1.0, type="CS", id="688001.XSHG")
+        rename(S["stocks"][1], "688012.XSHG", board="KSH", lot=1.0, type="CS")
+    if len(S["stocks"]) > 2:
+        rename(S["stocks"][2], "510013.XSHG", board="MainBoard", lot=100.0, type="ETF")
     out = []
 
     def init(context):
